@@ -12,6 +12,7 @@ package mempool
 import (
 	"fmt"
 	"sort"
+	"strings"
 	"sync"
 	"testing"
 	"time"
@@ -1091,6 +1092,204 @@ func TestPropAdmissionNonceHistory(t *testing.T) {
 		lib.EvalN(judged)
 		if nontrivial {
 			lib.NonTrivialCase(map[string]interface{}{"baseNonce": base, "history": history})
+		}
+	})
+}
+
+// ---------------------------------------------------------------- a known body presented again with other signature material
+
+// A transaction's id (Hash) covers neither the signature nor the public key. A re-present case therefore takes the
+// BODY of an earlier submission whose signature verified but which is currently neither pooled nor on chain - it
+// was refused at a later pipeline step (scripted exec-check error, pending eth nonce, full pool) or admitted and then
+// removed (EventDelTxList, expiry sweep) - and submits that body again with (a) the original signature, (b) a valid
+// signature by another account, (c) the original signature under another account's public key, (d) broken
+// signature bytes / a signature made with another key. Oracle, from "every signature verifies": (c) and (d) never
+// enter; after every event every pooled transaction verifies (types.Transaction.CheckSign on the pooled object) and
+// (a)/(b) are indexed under the account that signed. Controls: (a)/(b) must be admitted when the state allows.
+// The fake blockchain reports only scripted hashes as packed, so it never masks the pool's own verdict here.
+func TestPropAdmissionRepresent(t *testing.T) {
+	defer lib.Flush()
+	vfInitSenders()
+	rapid.Check(t, func(t *rapid.T) {
+		intn := func(n int, label string) int { return rapid.IntRange(0, n-1).Draw(t, label) }
+		capacity := int64(60)
+		if intn(10, "smallPool") == 0 {
+			capacity = int64(2 + intn(2, "cap"))
+		}
+		e := vfNewEnv(vfOpts{cap: capacity, perAcc: 100, maxLast: 10})
+		defer e.close()
+		type body struct {
+			id   string
+			spec vfTxSpec
+			tx   *types.Transaction // as first submitted, correctly signed
+			how  string             // how it came to be verified-but-absent
+		}
+		var bodies []*body
+		var history []map[string]interface{}
+		logEv := func(kv ...interface{}) {
+			ev := map[string]interface{}{}
+			for i := 0; i+1 < len(kv); i += 2 {
+				ev[kv[i].(string)] = kv[i+1]
+			}
+			history = append(history, ev)
+		}
+		fail := func(format string, a ...interface{}) {
+			lib.Violation(t, "C22", "TestPropAdmissionRepresent", map[string]interface{}{"cap": capacity, "history": history}, format, a...)
+		}
+		uniq, fullRejects := int64(0), 0
+		pooled := func() map[string]*types.Transaction {
+			m := map[string]*types.Transaction{}
+			for _, it := range e.entries() {
+				m[string(it.Value.Hash())] = it.Value
+			}
+			return m
+		}
+		pendingNonce := func(addr string, nonce int64) bool {
+			for _, it := range e.entries() {
+				if it.Value.From() == addr && it.Value.Nonce == nonce {
+					return true
+				}
+			}
+			return false
+		}
+		verified := map[*types.Transaction]bool{} // pooled objects already verified by the harness (verification is the costly part)
+		checkPool := func() {                     // every pooled transaction's signature verifies
+			for _, it := range e.entries() {
+				if verified[it.Value] {
+					continue
+				}
+				verified[it.Value] = true
+				if !it.Value.CheckSign(e.mem.GetHeader().GetHeight() + 1) {
+					fail("the pool holds %s whose signature does not verify (claimed sender %s)", vfHex(it.Value.Hash()), it.Value.From())
+				}
+			}
+		}
+		judged, nontrivial := 0, false
+		for i, n := 0, 4+intn(16, "events"); i < n; i++ {
+			switch op := intn(100, "op"); {
+			case op < 40 || len(bodies) == 0: // a new, correctly signed transaction; some are refused after the signature step
+				uniq++
+				b := &body{id: fmt.Sprintf("b%d", len(bodies)), spec: vfTxSpec{Sender: []int{0, 1, 2, 4, 5}[intn(5, "sender")], To: intn(3, "to"), Nonce: 7000 + uniq, Fee: vfFee + uniq}}
+				eth := vfSenders[b.spec.Sender].eth
+				if eth {
+					b.spec.Nonce = int64(intn(3, "ethNonce"))
+				}
+				b.tx = vfBuildTx(e.cfg, b.spec)
+				if _, dup := pooled()[string(b.tx.Hash())]; dup {
+					continue
+				}
+				full := int64(len(e.entries())) >= capacity
+				if full && fullRejects >= 1 {
+					continue // each refusal at a full pool costs the pool's 200 ms back-off
+				}
+				execErr := intn(3, "execErr") == 0
+				if execErr {
+					e.chain.mu.Lock()
+					e.chain.execErr[string(b.tx.Hash())] = "ErrScriptedExecCheck"
+					e.chain.mu.Unlock()
+				}
+				ok, msg := e.submit(b.tx)
+				e.chain.mu.Lock()
+				delete(e.chain.execErr, string(b.tx.Hash()))
+				e.chain.mu.Unlock()
+				if full && !ok {
+					fullRejects++
+				}
+				b.how = "admitted"
+				if !ok {
+					b.how = "refused:" + msg
+				}
+				logEv("op", "submit", "body", b.id, "spec", b.spec, "execErr", execErr, "ok", ok, "msg", msg)
+				bodies = append(bodies, b)
+			case op < 52: // eviction
+				var hs [][]byte
+				for _, it := range e.entries() {
+					if intn(2, "evict") == 0 {
+						hs = append(hs, it.Value.Hash())
+					}
+				}
+				if len(hs) > 0 {
+					e.call(types.EventDelTxList, &types.TxHashList{Hashes: hs})
+					logEv("op", "evict", "n", len(hs))
+				}
+			case op < 60: // pool-age expiry and sweep
+				if items := e.entries(); len(items) > 0 {
+					e.age(items[intn(len(items), "ageIdx")].Value.Hash())
+					e.mem.removeExpired()
+					logEv("op", "ageAndSweep")
+				}
+			default: // re-present a body that is known to the pool's pipeline but absent from the pool
+				in := pooled()
+				var cand []*body
+				for _, b := range bodies {
+					if in[string(b.tx.Hash())] == nil {
+						cand = append(cand, b)
+					}
+				}
+				if len(cand) == 0 {
+					continue
+				}
+				b := cand[intn(len(cand), "body")]
+				variant := []string{"original", "resigned", "pubkey_swapped", "pubkey_swapped", "sig_broken", "sig_broken"}[intn(6, "variant")]
+				eth := vfSenders[b.spec.Sender].eth
+				other := (b.spec.Sender + 1) % 3
+				if eth {
+					other = 9 - b.spec.Sender // 4 <-> 5
+				}
+				tx := types.CloneTx(b.tx)
+				sig := b.tx.Signature
+				tx.Signature = &types.Signature{Ty: sig.Ty, Pubkey: append([]byte(nil), sig.Pubkey...), Signature: append([]byte(nil), sig.Signature...)}
+				signer := b.spec.Sender
+				switch variant {
+				case "resigned":
+					tx.Sign(vfSenders[other].ty, vfSenders[other].priv)
+					signer = other
+				case "pubkey_swapped":
+					tx.Signature.Pubkey = vfSenders[other].priv.PubKey().Bytes()
+				case "sig_broken":
+					vfBreakSignature(tx, b.spec.Sender, intn(3, "breakHow"))
+				}
+				full := int64(len(e.entries())) >= capacity
+				if full && fullRejects >= 1 {
+					continue
+				}
+				blockedByState := full || (eth && pendingNonce(tx.From(), tx.Nonce))
+				start := time.Now()
+				ok, msg := e.submit(tx)
+				if time.Since(start) > 1500*time.Millisecond {
+					lib.Class("slow_submission_skipped")
+					continue
+				}
+				if full && !ok {
+					fullRejects++
+				}
+				entered := ok || pooled()[string(tx.Hash())] != nil
+				logEv("op", "represent", "body", b.id, "was", b.how, "variant", variant, "ok", ok, "msg", msg)
+				judged++
+				lib.Class("represent_" + variant)
+				lib.Class("represent_body_was_" + strings.SplitN(b.how, " ", 2)[0])
+				switch variant {
+				case "pubkey_swapped", "sig_broken":
+					if entered {
+						fail("body %s (%s earlier) re-presented with %s was admitted (reply %q); it is pooled under sender %s", b.id, b.how, variant, msg, tx.From())
+					}
+					nontrivial = true
+				default:
+					if !entered && !blockedByState {
+						lib.Inconclusive("C22 re-present control: %s copy of %s rejected: %s (history %v)", variant, b.id, msg, history)
+					}
+					if entered {
+						if p := pooled()[string(tx.Hash())]; p == nil || p.From() != vfSenders[signer].addr {
+							fail("body %s re-presented (%s) is not pooled under its signer %s", b.id, variant, vfSenders[signer].addr)
+						}
+					}
+				}
+			}
+			checkPool()
+		}
+		lib.EvalN(judged)
+		if nontrivial {
+			lib.NonTrivialCase(map[string]interface{}{"cap": capacity, "history": history})
 		}
 	})
 }
